@@ -129,7 +129,7 @@ def merge_cases(ctx, tier, want='any'):
     rnd = ctx.rng('merge')
     big = sigs.U(('a', 'b', 'c'), 3)
     big4 = sigs.U(('a', 'b', 'c', 'd'), 3)
-    n_random = {'quick': 30000, 'thorough': 400000}[tier] // ctx.nshards
+    n_random = {'quick': 30000, 'thorough': 3000000}[tier] // ctx.nshards
     for i in range(n_random):
         if ctx.out_of_time('random merges'):
             break
@@ -227,7 +227,7 @@ def embed_cases(ctx, tier):
                 for f in flags:
                     yield (o, i), f
         ctx.exhaustive['embed: outer in U({a},1) x inner in U({c,a},1) x 4 flag sets'] = True
-    n_random = {'quick': 20000, 'thorough': 200000}[tier] // ctx.nshards
+    n_random = {'quick': 20000, 'thorough': 1500000}[tier] // ctx.nshards
     mids = sigs.U(('m', 'a'), 1)
     big_o = sigs.U(('a', 'b', 'd'), 3)
     big_i = sigs.U(('c', 'a', 'x'), 3)
@@ -290,7 +290,7 @@ def mask_cases(ctx, tier, flags=True, dup=False, include_posonly=False):
     # positional-or-keyword ones cannot occur among 3): a seeded sample
     U4 = [p for p in sigs.U(('a', 'b', 'c', 'd'), 4, stars=sigs.STARS2[:1]) if sum(1 for x in p if x[1] in (PO, PK)) >= 3]
     big = []
-    for _ in range({'quick': 50, 'thorough': 1200}[tier]):
+    for _ in range({'quick': 50, 'thorough': 6000}[tier]):
         p = rnd.choice(U4)
         if rnd.random() < 0.5 and not any(x[0] == 'e' for x in p):
             # a fifth, defaulted positional-or-keyword parameter after the last positional one
@@ -340,7 +340,7 @@ def forwards_cases(ctx, tier):
     rnd = ctx.rng('forwards')
     outers = sigs.U(('a', 'b'), 2)
     inners = sigs.U(('x', 'y', 'a'), 3, stars=sigs.STARS2[:1])
-    n_random = {'quick': 15000, 'thorough': 200000}[tier] // ctx.nshards
+    n_random = {'quick': 15000, 'thorough': 1500000}[tier] // ctx.nshards
     for _ in range(n_random):
         if ctx.out_of_time('random forwards'):
             break
@@ -409,7 +409,7 @@ def drive_composite(ctx, tier, n_cases=None, pool=None):
     rnd = ctx.rng('composite')
     pool = pool or SigPool()
     leaves = sigs.U(('a', 'b', 'c'), 2) + sigs.U(('x', 'y'), 2)
-    n_cases = n_cases or {'quick': 6000, 'thorough': 80000}[tier] // ctx.nshards
+    n_cases = n_cases or {'quick': 6000, 'thorough': 600000}[tier] // ctx.nshards
 
     local = []
 
@@ -467,7 +467,7 @@ def drive_partial_retrieval(ctx, tier, n_cases=None, meta=None):
     S = sigapi()
     rnd = ctx.rng('partial-retrieval')
     U = sigs.U(('a', 'b', 'c'), 3, stars=sigs.STARS2[:1])
-    n_cases = n_cases or {'quick': 4000, 'thorough': 60000}[tier] // ctx.nshards
+    n_cases = n_cases or {'quick': 4000, 'thorough': 400000}[tier] // ctx.nshards
     for _ in range(n_cases):
         if ctx.out_of_time('partial retrievals'):
             break
